@@ -338,13 +338,14 @@ def check_units(ctx, fi, res):
                 bound = res.bound(n, cal, fi)
                 ps = [a.arg for a in cal.node.args.posonlyargs + cal.node.args.args]
                 eff = ps[1:] if bound and ps and ps[0] in ('self', 'cls') else ps
+                dual = _sign_coded_params(cal.node)
                 for i, a in enumerate(n.args):
                     if isinstance(a, ast.Starred):
                         break
-                    if i < len(eff) and name_unit(eff[i]):
+                    if i < len(eff) and name_unit(eff[i]) and eff[i] not in dual:
                         need(n, a, name_unit(eff[i]), f'parameter `{eff[i]}` of {cal.name}()')
                 for kw in n.keywords:
-                    if kw.arg and name_unit(kw.arg) and kw.arg not in ('col_offset', 'end_col_offset'):
+                    if kw.arg and name_unit(kw.arg) and kw.arg not in ('col_offset', 'end_col_offset') and kw.arg not in dual:
                         need(n, kw.value, name_unit(kw.arg), f'parameter `{kw.arg}` of {cal.name}()')
                 break
         # S4 indexing into a line
@@ -354,6 +355,20 @@ def check_units(ctx, fi, res):
             for p_ in parts:
                 if p_ is not None:
                     need(n, p_, 'C', 'index / slice bound into a source line')
+
+
+def _sign_coded_params(fn) -> set[str]:
+    """Parameters the callee itself declares to be of either unit: it dispatches on their sign (`col <= 0`) and uses the negated value
+    (`-col`) in one arm — fst_core._offset takes a character column when positive and a byte offset when negative."""
+    out = set()
+    ps = {a.arg for a in fn.args.posonlyargs + fn.args.args + fn.args.kwonlyargs}
+    for x in ast.walk(fn):
+        if isinstance(x, ast.Compare) and len(x.ops) == 1 and isinstance(x.ops[0], (ast.Lt, ast.LtE, ast.Gt, ast.GtE)) and \
+                isinstance(x.left, ast.Name) and x.left.id in ps and isinstance(x.comparators[0], ast.Constant) and x.comparators[0].value == 0:
+            if any(isinstance(y, ast.UnaryOp) and isinstance(y.op, ast.USub) and isinstance(y.operand, ast.Name) and y.operand.id == x.left.id
+                   for y in ast.walk(fn)):
+                out.add(x.left.id)
+    return out
 
 
 # ---- R6.5 ------------------------------------------------------------------------------------------------------------
